@@ -35,7 +35,7 @@ THEOREMS = [P + t for t in (
     "svc_table_pinned", "node_table_pinned", "link_table_pinned", "guard_table_pinned", "no_limit_pinned", "tables_complete",
     "gen_service_properties_readable", "gen_node_required_readable", "gen_names_are_members", "gen_no_instance_limit",
     "gen_instances_void", "validate_rejects_with_topology_of", "validate_rejects_with_topology", "validate_iff_spec_gen", "validate_counts_by_identity",
-    "gen_no_falsy_values", "gen_hollow_harmless", "services_full_of_valid", "falsy_value_counterexample",
+    "gen_no_falsy_values", "gen_every_value_readable", "gen_hollow_harmless", "services_full_of_valid", "falsy_value_counterexample",
     "interface_order_irrelevant", "interface_order_irrelevant_gen", "validate_twice", "history_validate", "history_validate_twice", "verdict_of_eraseNames", "history_connect_disconnect",
     "history_connect_order", "history_rename", "validate_pins_multisite_counterexample", "failed_validate_leaves_site_counterexample")]
 EXHAUSTIVE = True
@@ -43,7 +43,9 @@ TRUSTED_BASE = [
     "gen/constraints.py: dump of the three constraint tables (imported values), getter lists (introspection), shallow-sliver property lists "
     "(AST of the set_properties calls); everything else is OBSERVED on scratch topologies built through the API: the four presence tests "
     "(table row and sliver getter patched for one call), guardrail pairs over all type pairs and who runs the guardrails, node types that reach "
-    "validate_constraints, node properties the check sees, topology classes with interface-count limits, value classes that can be falsy",
+    "validate_constraints, node properties the check sees, topology classes with interface-count limits, value classes that can be falsy, "
+    "every member of every enum-valued service property reads back from a fresh handle (svcValuesLost), connect_interface runs the guardrails "
+    "on fresh objects and on objects used before (constructor with interfaces, earlier connect, earlier refused connect)",
     "Model/Validate.lean mirrors the order of checks of Topology.validate / validate_constraints / __validate_nstype_constraints / "
     "Node.validate_constraints / connect_interface by hand; checked differentially on every case below",
     "Model/ValidateHist.lean mirrors by hand what connect_interface, disconnect_interface, remove_node, remove_component, rename, the site setter, "
@@ -61,20 +63,27 @@ ASSUMPTIONS = [
     "not check: a node renamed to the name of another node hides it from Topology.nodes, outside this property); services of different nodes may "
     "share a name and the derived names of service ports and interface names are NOT assumed unique",
     "owner nodes carry a site string (the Node constructor requires one); it may be empty",
-    "histories call the API with fresh handles (a NetworkService handle caches its interface list)",
+    "histories read the slice back through fresh handles (a NetworkService handle caches its interface list); connects are made on fresh "
+    "handles or, in the histories marked kept, on the objects add_network_service returned; what a fresh handle lists for a service must be "
+    "the interfaces the calls connected, each once (a difference is reported as a disagreement, the verdict is judged all the same)",
 ]
 RULE = ("grid A: 15 service types x 23 site placements of 0..4 interfaces over <=3 sites x declared site {none, first, other} x 12 interface-kind "
         "patterns (8 uniform + 4 mixed); grid B: service types x 5 placements x declared x {DedicatedPort, SharedPort} x every subset of the "
         "type's constrained properties; grid C: 6 node types x site {set, blank} x image {none, set, blank strings} x management_ip {none, set, zero "
         "address} x component, in experiment and substrate topologies, and every invalid node next to valid nodes of every other type; grid D: natural "
         "builds (NICs, add_facility, add_switch, port mirror, peer(), dangling and owner-less interfaces, substrate topologies); grid E: edited tables; "
-        "grid F: service type x interface kind x constructor/connect_interface x fresh/connected; grid G: an interface at another site connected and "
+        "grid F: service type x interface kind x constructor/connect_interface x fresh/connected, and the same connect made on an object "
+        "used before (returned by the constructor with an interface given to it / connected another interface / had a connect refused / "
+        "connected and disconnected / second object next to a kept one); grid G: an interface at another site connected and "
         "disconnected again before the final wiring; grid G2 (histories, every service type): validate-move-validate, grow after a validation, failed "
         "validation then repair, remove_node / remove_component of an owner between connect and validate, renames before and after the connect (also "
         "to coinciding derived names), node site changed before / between validations, all 6 orders of three connects over two services, peer / "
         "unpeer / disconnect on a peering port / disconnect called on the wrong service; random histories of 3..10 calls over 2..4 nodes and 1..2 "
         "services; grid H: every constrained object-valued property (ero) given as an object without content, every constrained string-valued "
-        "property given as the empty string. quick samples A and B (1100) and runs 250 random histories; thorough runs all of A and B and 4000 "
+        "property given as the empty string, every constrained property given as each of its other valid values (every member of the "
+        "mirror-direction enum, listed from the enum; the strings '0' and 'None'), also through add_port_mirror_service and in the random "
+        "histories; 40% of the random histories and the grow-after-validation histories make their connects on objects kept from creation. "
+        "quick samples A and B (1100) and runs 250 random histories; thorough runs all of A and B and 4000 "
         "random histories. naming: half of A/B/D use node and interface names whose derived '<node>-<interface>' service-port names all coincide; "
         "interfaces are counted by identity in the request line (name carried as a label) and in the oracle. distinct by abstract configuration / history")
 
@@ -206,7 +215,20 @@ BLANKABLE = ["mirror_port", "mirror_vlan", "controller_url"]      # string-value
 
 
 def pbase(p):
-    return p.split("@")[0]
+    return p.split("@")[0].split("#")[0]
+
+
+_VARIANTS = {}
+
+
+def value_variants(q):
+    """other valid values of a constrained property ('name#value' in a case): every further member of an enum-valued property
+    (listed from the enum itself, so that a rare member is not left out), strings that look like nothing ('0', 'None')"""
+    if not _VARIANTS:
+        from fim.slivers.network_service import MirrorDirection
+        _VARIANTS.update({"mirror_direction": [m.name for m in MirrorDirection][1:], "mirror_port": ["0", "None"], "mirror_vlan": ["0"],
+                          "controller_url": ["None"]})
+    return _VARIANTS.get(q, [])
 
 
 def abs_props(props):
@@ -273,6 +295,13 @@ def grid_H():
         for q in constrained_props(ty):
             if q in BLANKABLE:
                 props = [x for x in baseline_props(ty) if x != q] + [q + "@blank"]
+                for pl, how in (([0, 1], "ctor"), ([0], "connect")):
+                    yield service_case(ty, pl, "none", ["DedicatedPort"] * len(pl), props, how=how)
+    # every other valid value of a constrained property (each member of an enum, strings that look like nothing): set
+    for ty in SVC_TYPES:
+        for q in constrained_props(ty):
+            for v in value_variants(q):
+                props = [x for x in baseline_props(ty) if x != q] + ["%s#%s" % (q, v)]
                 for pl, how in (([0, 1], "ctor"), ([0], "connect")):
                     yield service_case(ty, pl, "none", ["DedicatedPort"] * len(pl), props, how=how)
     for ty in SVC_TYPES:
@@ -364,6 +393,9 @@ def grid_D():
         for kind in ("DedicatedPort", "SharedPort"):
             yield {"exp": True, "ov": None, "nodes": [mknode("VM", "RENC", groups=[G("generic", "OVS", [kind, kind])])],
                    "svcs": [mksvc("PortMirror", [[0, 0, 0]], site=site, props=["mirror_port", "mirror_direction"], how="mirror")]}
+            for v in value_variants("mirror_direction"):
+                yield {"exp": True, "ov": None, "nodes": [mknode("VM", "RENC", groups=[G("generic", "OVS", [kind, kind])])],
+                       "svcs": [mksvc("PortMirror", [[0, 0, 0]], site=site, props=["mirror_port", "mirror_direction#" + v], how="mirror")]}
     # helper services of every type with 0..3 direct interfaces, in experiment and substrate topologies
     for exp in (True, False):
         for ty in SVC_TYPES:
@@ -416,6 +448,9 @@ def grid_E(rng, n):
         yield c
 
 
+KEPT_HOWS = ["kept-ctor", "kept-connect", "kept-refused", "kept-churn", "kept-second"]
+
+
 def grid_F():
     for ty in SVC_TYPES:
         for kind in KINDS:
@@ -423,6 +458,14 @@ def grid_F():
                 for state in ("fresh", "connected"):
                     yield {"connect": True, "ty": ty, "kind": kind, "how": how, "state": state}
         yield {"connect": True, "ty": ty, "kind": "TrunkPort", "how": "connect", "state": "ownerless"}
+    # the same call on a handle that has been used before (the object the constructor returned with an interface already
+    # given to it; an object that connected another interface earlier; an object whose earlier connect was refused; an object
+    # that connected and disconnected another interface; a second object of the same service made while the first is kept)
+    for ty in SVC_TYPES:
+        for kind in KINDS:
+            for how in KEPT_HOWS:
+                for state in ("fresh", "connected"):
+                    yield {"connect": True, "ty": ty, "kind": kind, "how": how, "state": state}
 
 
 # --------------------------------------------------------------------------
@@ -471,6 +514,10 @@ def prop_kwargs(F, props):
             kw["ero"] = e
         elif p.endswith("@blank") and pbase(p) in BLANKABLE:
             kw[pbase(p)] = ""
+        elif p.startswith("mirror_direction#"):
+            kw["mirror_direction"] = F["MirrorDirection"][p.split("#", 1)[1]]
+        elif "#" in p and pbase(p) in BLANKABLE:
+            kw[pbase(p)] = p.split("#", 1)[1]
         else:
             raise Infra("unknown service property %s" % p)
     return kw
@@ -616,6 +663,8 @@ def build(case, F):
         pnames = None
         if s["how"] == "mirror":
             kw.pop("mirror_port", None)
+            if kw.get("mirror_direction") is not None:
+                kw["direction"] = kw["mirror_direction"]
             kw.pop("mirror_direction", None)
             if s["site"] is not None:
                 kw["site"] = s["site"]
@@ -659,6 +708,7 @@ def build(case, F):
                 t.add_link(name="l%d-%d" % (si, xi), ltype=F["LinkType"].L2Path,
                            interfaces=[sp, b.iface[(0, 0, 1)], b.iface[(0, 0, 2)]])
                 b.abstract[name][4].append(["p", "x%d" % xi, [["TrunkPort", case["nodes"][0]["site"]], ["TrunkPort", case["nodes"][0]["site"]]]])
+    b.svcs = svcs
     return b
 
 
@@ -718,7 +768,10 @@ def run_case(case):
                 api = [str(i.type) for i in listed[name].interface_list]
                 mine = [x[2] if x[0] == "d" else "ServicePort" for x in b.abstract[name][4]]
                 if sorted(api) != sorted(mine):
-                    return {"build_err": "interfaces of %s: api %s harness %s" % (name, api, mine)}
+                    # a fresh handle does not list the interfaces the calls connected (e.g. two of them taken for one because
+                    # their derived names coincide): the verdict is still taken and judged; the listing itself is reported as a
+                    # disagreement between the implementation and the description of the calls
+                    out.setdefault("listing", []).append({"service": name, "api lists": sorted(api), "calls connected": sorted(mine)})
             if case.get("xcheck"):
                 mine = [b.abstract[n] for n in order]
                 api = extract(t, order, F, listed)
@@ -816,6 +869,30 @@ def run_connect(case, F):
         try:
             if case["how"] == "ctor":
                 t.add_network_service(name="svc0", nstype=ST[case["ty"]], interfaces=[i], **kw)
+            elif case["how"] in KEPT_HOWS:
+                # an interface every service type supports, on another node, for the earlier use of the handle
+                q = t.add_node(name="n1", site="RENC").add_network_service(name="n1-g0", nstype=ST.OVS).add_interface(name="q0", itype=IT.DedicatedPort)
+                how = case["how"]
+                if how == "kept-ctor":
+                    s = t.add_network_service(name="svc0", nstype=ST[case["ty"]], interfaces=[q], **kw)
+                else:
+                    s = t.add_network_service(name="svc0", nstype=ST[case["ty"]], **kw)
+                    if how == "kept-connect":
+                        s.connect_interface(interface=q)
+                    elif how == "kept-refused":
+                        t.add_network_service(name="taken", nstype=ST.L2Bridge).connect_interface(interface=q)
+                        try:
+                            s.connect_interface(interface=q)
+                            return {"build_err": "connect of an interface that is taken was not refused"}
+                        except F["TopologyException"]:
+                            pass
+                    elif how == "kept-churn":
+                        s.connect_interface(interface=q)
+                        s.disconnect_interface(interface=q)
+                    elif how == "kept-second":
+                        s.connect_interface(interface=q)
+                        s = t.network_services["svc0"]
+                s.connect_interface(interface=i)
             else:
                 s = t.add_network_service(name="svc0", nstype=ST[case["ty"]], **kw)
                 s.connect_interface(interface=i)
@@ -1057,13 +1134,16 @@ def judge_connect(case, out, res):
 #      ["disconnect_port", si, sj] | ["validate"]
 # Services start without interfaces; nodes have generic / NIC groups only. The last op is a validate.
 
-def hist_case(nodes, svcs, ops, naming="plain", exp=True):
+def hist_case(nodes, svcs, ops, naming="plain", exp=True, kept=False):
     for ni, n in enumerate(nodes):
         for g in n["groups"]:
             if g["via"] != "generic":
                 g["cname"] = "c%d" % ni       # distinct component (hence service) names whatever the node naming
-    return {"hist": True, "exp": exp, "ov": None, "naming": naming, "nodes": nodes,
-            "svcs": [{"ty": ty, "site": site, "props": sorted(props)} for ty, site, props in svcs], "ops": [list(o) for o in ops]}
+    c = {"hist": True, "exp": exp, "ov": None, "naming": naming, "nodes": nodes,
+         "svcs": [{"ty": ty, "site": site, "props": sorted(props)} for ty, site, props in svcs], "ops": [list(o) for o in ops]}
+    if kept:
+        c["kept"] = True      # connects are made on the objects add_network_service returned, kept for the whole history
+    return c
 
 
 def _vm(site, kinds=("DedicatedPort", "DedicatedPort"), nic=None, **kw):
@@ -1088,6 +1168,10 @@ def grid_G2():
         # grow after a validation: second interface in the same site / in another site
         for target in ([2, 0, 0], [1, 0, 0]):
             yield hist_case(three(), [(ty, None, bp)], [["connect", 0, [0, 0, 0]], V, ["connect", 0, target], V])
+            yield hist_case(three(), [(ty, None, bp)], [["connect", 0, [0, 0, 0]], V, ["connect", 0, target], V], kept=True)
+        # one kept object: a supported interface, then one of a kind the type may not support, then one that is taken
+        yield hist_case([_vm("RENC"), _vm("UKY", kinds=("SharedPort", "SharedPort")), _vm("RENC")], [(ty, None, bp), ("L2Bridge", None, [])],
+                        [["connect", 0, [0, 0, 0]], ["connect", 0, [1, 0, 0]], ["connect", 1, [2, 0, 0]], ["connect", 0, [2, 0, 0]], V], kept=True)
         # a failed validation (another service spans too many sites) comes first, then that service is repaired and this one moved
         yield hist_case(three(), [(ty, None, bp), ("L2Bridge", None, [])],
                         [["connect", 0, [0, 0, 0]], ["connect", 1, [0, 0, 1]], ["connect", 1, [1, 0, 1]], V,
@@ -1129,7 +1213,8 @@ def random_histories(rng, n):
         nodes = [_vm(rng.choice(SITES[:2]), kinds=[rng.choice(["DedicatedPort", "SharedPort", "DedicatedPort"])] * 2,
                      nic=rng.choice([None, None, "nic_smart", "nic_shared"])) for _ in range(rng.randrange(2, 5))]
         tys = [rng.choice(SVC_TYPES) for _ in range(rng.randrange(1, 3))]
-        svcs = [(ty, rng.choice([None, None, None, "RENC"]), baseline_props(ty)) for ty in tys]
+        svcs = [(ty, rng.choice([None, None, None, "RENC"]),
+                 [(p + "#" + rng.choice(value_variants(p))) if value_variants(p) and rng.random() < 0.5 else p for p in baseline_props(ty)]) for ty in tys]
         keys = [[ni, gi, ii] for ni, nd in enumerate(nodes) for gi, g in enumerate(nd["groups"]) for ii in range(len(g["kinds"]))]
         ops, names = [], itertools.count()
         for _ in range(rng.randrange(3, 11)):
@@ -1154,7 +1239,7 @@ def random_histories(rng, n):
                 ops.append(["rename_iface", rng.choice(keys), "ri%d" % next(names)])
             elif len(svcs) > 1:
                 ops.append([rng.choice(["peer", "unpeer", "peer"]), 0, 1])
-        yield hist_case(nodes, svcs, ops + [["validate"]], naming=rng.choice(["plain", "collide"]))
+        yield hist_case(nodes, svcs, ops + [["validate"]], naming=rng.choice(["plain", "collide"]), kept=rng.random() < 0.4)
 
 
 def hist_ids(case):
@@ -1294,7 +1379,7 @@ def _run_history(case, F, b):
                 statuses.append(st)
                 continue
             if k == "connect":
-                svc(o[1]).connect_interface(interface=b.iface[tuple(o[2])])
+                (b.svcs[o[1]] if case.get("kept") else svc(o[1])).connect_interface(interface=b.iface[tuple(o[2])])
             elif k == "disconnect":
                 svc(o[1]).disconnect_interface(interface=b.iface[tuple(o[2])])
             elif k == "remove_node":
@@ -1564,6 +1649,10 @@ def correspondence(ctx, res):
         if o.get("xdiff"):
             res.disagreements.append({"case": c, "impl": {"slice reported by the API": o["xdiff"]["api"]},
                                       "model": {"slice described by the calls": o["xdiff"]["calls"]}})
+        if o.get("listing"):
+            res.count("listing-differs")
+            res.disagreements.append({"case": c, "impl": {"interfaces a fresh handle of the service lists": o["listing"]},
+                                      "model": "every interface the calls connected, once"})
     if sum(1 for o in outs if "request" not in o) > len(outs) // 50:
         raise Infra("too many cases could not be built: %s" % [o.get("build_err") for o in outs if "request" not in o][:3])
     model = LeanDriver("C10").run([json.dumps(r) for r in reqs])
